@@ -12,7 +12,7 @@ import (
 // the plan, so replay needs no PRNG.
 
 var byteFaults = []string{"F1-torn-write", "F2-bit-flip", "F3-structural-byte", "F4-drop-span", "F5-duplicate-span", "F6-swap-spans", "F7-append-garbage", "F8-zero-fill"}
-var docFaults = []string{"F11-wrong-type-element", "F12-duplicates", "F13-reencode", "F14-partial-struct", "F15-permute", "F16-respelled-key"}
+var docFaults = []string{"F11-wrong-type-element", "F12-duplicates", "F13-reencode", "F14-partial-struct", "F15-permute", "F16-respelled-key", "F18-null-elements"}
 
 var structuralBytes = []byte("{}[],:\"\\0123456789abcdefntu-+.eE \n")
 
@@ -357,6 +357,28 @@ func applyDocFault(r *Rng, kind string, b []byte, elem string, capHint int) []by
 		m := member{k, members[r.Intn(n)].val}
 		at := r.Intn(n + 1)
 		members = append(members[:at], append([]member{m}, members[at:]...)...)
+	case "F18-null-elements": // some elements / member values are null: a legal document, null denotes the zero value
+		if n == 0 {
+			return b
+		}
+		hit := false
+		for i := range elems {
+			if r.Bool() {
+				elems[i], hit = json.RawMessage("null"), true
+			}
+		}
+		for i := range members {
+			if r.Bool() {
+				members[i].val, hit = json.RawMessage("null"), true
+			}
+		}
+		if !hit {
+			if isObj {
+				members[r.Intn(n)].val = json.RawMessage("null")
+			} else {
+				elems[r.Intn(n)] = json.RawMessage("null")
+			}
+		}
 	case "F14-partial-struct":
 		if isObj || elem != "item" {
 			return b
@@ -367,6 +389,36 @@ func applyDocFault(r *Rng, kind string, b []byte, elem string, capHint int) []by
 		} else {
 			elems[r.Intn(n)] = part
 		}
+	}
+	return joinDoc(isObj, elems, members)
+}
+
+// applyLateTypeFault replaces one element (member value) other than the first by a literal of another JSON type
+// (a string where the document has numbers or objects, a number where it has strings): the document stays
+// well-formed, the elements before the damaged one are good.
+func applyLateTypeFault(r *Rng, b []byte) []byte {
+	isObj, elems, members, ok := splitDoc(b)
+	if !ok {
+		return b
+	}
+	n := len(elems) + len(members)
+	if n == 0 {
+		return b
+	}
+	i := 0
+	if n > 1 {
+		i = 1 + r.Intn(n-1)
+	}
+	other := func(v json.RawMessage) json.RawMessage {
+		if len(v) > 0 && v[0] == '"' {
+			return json.RawMessage("17")
+		}
+		return json.RawMessage("\"high\"")
+	}
+	if isObj {
+		members[i].val = other(members[i].val)
+	} else {
+		elems[i] = other(elems[i])
 	}
 	return joinDoc(isObj, elems, members)
 }
